@@ -33,7 +33,8 @@ FLOORS = {'cyclic_cases': 100, 'acyclic_cases': 100, 'failure_cases': 100,
           'absolute_cycles': 60, 'linked_workbook_cases': 8,
           'long_cycles': 10, 'percent_in_cycle': 30,
           'bare_reference_rings': 30, 'dormant_ring_cases': 8,
-          'nested_sheet_name_decoys': 20, 'non_ascii_cycles': 10}
+          'nested_sheet_name_decoys': 20, 'non_ascii_cycles': 10,
+          'error_left_operand_or_thread_cycles': 40}
 ANCHOR_FUNCS = {
     'xlcalculator/evaluator.py': ['Evaluator.evaluate',
                                   'EvaluatorContext.eval_cell'],
@@ -380,6 +381,72 @@ def run(ctx):
                 ctx.event('non_ascii_cycles')
                 judge_cyclic(desc, ('non-ascii-cycle', sname, length,
                                     closing), wb, model, start, total)
+    # ---- a cycle that is closed through the RIGHT operand of an operator whose
+    # left operand is an error value; and the same Evaluator asked from another
+    # thread than the one that built it ---------------------------------------
+    if sh in (4, 5, 6, 7) or thorough:
+        from xlcalculator import Evaluator as _Ev
+        import threading
+        rings = {
+            'B1=1/0; C1=B1+C1': ({'B1': '=1/0', 'C1': '=B1+C1'}, ['C1']),
+            'NA()&C2 ring': ({'C2': '=NA()&C3', 'C3': '=C2'}, ['C2', 'C3']),
+            '#REF!*C3': ({'C3': '=#REF!*C4', 'C4': '=C3+1'}, ['C3', 'C4']),
+            'error cell left, 3-ring': (
+                {'E1': '=SQRT(-1)', 'A1': '=E1+A2', 'A2': '=A3*2',
+                 'A3': '=SUM(A1:A1)-1'}, ['A1', 'A2', 'A3']),
+            'error left of a comparison': (
+                {'E1': '=1/0', 'A1': '=E1<A2', 'A2': '=A1'}, ['A1', 'A2']),
+            'healthy left (control)': (
+                {'B1': 5, 'C1': '=B1+C1'}, ['C1']),
+        }
+        for desc, (cells, starts) in rings.items():
+            for threaded in (False, True):
+                ev = _Ev(subject.compile_dict(cells))
+                for a in starts:
+                    box = []
+
+                    def ask(a=a):
+                        box.append(subject.outcome_of(
+                            lambda: ev.evaluate(f'Sheet1!{a}')))
+                    if threaded:
+                        th = threading.Thread(target=ask)
+                        th.start()
+                        th.join(120)
+                    else:
+                        ask()
+                    got = box[0] if box else ('raised', 'no answer from the '
+                                              'worker thread within 120 s')
+                    ctx.event('cyclic_cases')
+                    ctx.event('error_left_operand_or_thread_cycles')
+                    ctx.case(('error-left-cycle', desc, a, threaded))
+                    ok = got[0] == 'raised' and 'cycle' in got[1].lower() \
+                        and len(got[1]) < 4000
+                    if not ok:
+                        ctx.fail(f'cycle "{desc}" entered at {a}'
+                                 f'{" from a worker thread (the Evaluator was built in the main thread)" if threaded else ""}: '
+                                 f'outcome {str(got)[:200]} '
+                                 f'({len(str(got))} characters), expected a '
+                                 f'cycle report',
+                                 {'cells': cells, 'start': a,
+                                  'thread': 'worker' if threaded else 'main',
+                                  'outcome': str(got)[:600]},
+                                 monitor='cycle-reported',
+                                 group=f'error-left-cycle:{threaded}:'
+                                       f'{got[0]}')
+        # acyclic models from a worker thread: values as in the main thread
+        ev = _Ev(subject.compile_dict({'A1': 2, 'B1': '=A1*3',
+                                       'C1': '=B1+A1', 'D1': '=SUM(A1:C1)'}))
+        box = []
+        th = threading.Thread(target=lambda: box.append(subject.outcome_of(
+            lambda: ev.evaluate('Sheet1!D1'))))
+        th.start()
+        th.join(120)
+        ctx.event('acyclic_cases')
+        if box != [('value', ('num', 16.0))]:
+            ctx.fail(f'acyclic model evaluated from a worker thread: {box}',
+                     {'observed': str(box)}, monitor='acyclic-never-flagged',
+                     group='thread-acyclic')
+
     # ---- acyclic decoys -------------------------------------------------------
     def decoys():
         a1 = R(1, 1)
